@@ -10,6 +10,8 @@ import XC.Proofs.C52_Alias
 import XC.Proofs.C52_FinalExp
 import XC.Proofs.C52_Frob
 import XC.Proofs.C52_Fp6
+import XC.Proofs.C52_Gt
+import XC.Proofs.C52_PairEval
 namespace XC.C52
 
 /-! ## G1 encodings -/
@@ -297,6 +299,42 @@ example : (g2Unmarshal (g2Marshal TwistPoint.gen)).isSome = true := by decide
 theorem g1_neg_onCurve (x y : Int) (h : onCurve1 x y) : onCurve1 x (-y) := by
   unfold onCurve1 at *
   rw [Int.neg_mul_neg]; exact h
+
+/-- **Marshal ; Unmarshal returns an equal element, for EVERY representative** (Jacobian or not):
+    if the decoder accepts the encoding at all, the element it returns marshals to the same bytes.
+    (It accepts iff the affine form is on the curve: `g1_unmarshal_accepts_iff`.) -/
+theorem g1_roundtrip_equal (c c' : CurvePoint) (h : g1Unmarshal (g1Marshal c) = some c') :
+    g1Marshal c' = g1Marshal c := g1_unmarshal_canonical _ _ h
+
+theorem g2_roundtrip_equal (c c' : TwistPoint) (h : g2Unmarshal (g2Marshal c) = some c') :
+    g2Marshal c' = g2Marshal c := g2_unmarshal_canonical _ _ h
+
+/-- GT.ScalarMult with a negative scalar is the inverse of the power for |k| -/
+theorem gt_exp_neg (a : GFp12) (k : Int) (h : k < 0) : a.exp k = (a.expLoop (-k)).invert ∧ 0 ≤ -k := by
+  simp [GFp12.exp, h]; omega
+
+/-! ### non-vacuity of the hypotheses used above -/
+
+-- the generator of G1 in marshalled form (1, p−2) satisfies the hypotheses of `g1_marshal_unmarshal`
+example : (0 : Int) ≤ 1 ∧ (1 : Int) < p ∧ 0 ≤ p - 2 ∧ p - 2 < p ∧ onCurve1 1 (p - 2) := by
+  unfold onCurve1; decide
+-- … and of `g1_roundtrip_equal` / `g1_unmarshal_canonical` with a Jacobian (z ≠ 1) representative
+example : ∃ c', g1Unmarshal (g1Marshal (CurvePoint.gen.mul 5)) = some c' ∧ (CurvePoint.gen.mul 5).z ≠ 1 := by
+  decide +kernel
+-- the generator of G2 satisfies the hypotheses of `g2_marshal_unmarshal`
+set_option maxRecDepth 20000 in
+example : onCurve2 TwistPoint.gen.x TwistPoint.gen.y ∧ TwistPoint.gen.x.x < p ∧ 0 ≤ TwistPoint.gen.y.y := by
+  unfold onCurve2; decide +kernel
+-- `add_self`, `add_neg`, `add_infinity`: the generators are not infinity, `infinity0` is
+example : CurvePoint.gen.isInfinity = false ∧ TwistPoint.gen.isInfinity = false ∧
+    CurvePoint.infinity0.isInfinity = true ∧ TwistPoint.infinity0.isInfinity = true := by decide
+-- `mul_neg`, `gt_exp_neg`: a negative scalar; and the result really is the negation: [−1]g = (1, 2)
+example : ((-1 : Int) < 0) ∧ g1Marshal (CurvePoint.gen.mul (-1)) = be32 1 ++ be32 2 := by decide +kernel
+-- `GFp2.mul_congr`, `GFp2.Eqv`: two different representatives of the same field element
+example : GFp2.Eqv ⟨p + 1, -1⟩ ⟨1, p - 1⟩ ∧ (⟨p + 1, -1⟩ : GFp2) ≠ ⟨1, p - 1⟩ := by
+  unfold GFp2.Eqv; decide
+-- `pair_infinity`
+example : pairNotOne CurvePoint.infinity0 TwistPoint.gen = false := by decide
 
 /-! ## what is NOT proved (checked only differentially / as identities on the implementation) -/
 
